@@ -81,6 +81,29 @@ Theorem C26_restart_end_to_end : forall orc cok avail t1 t2 p1 ops1,
                       forall l', get_db l' dbs' = get_db l' (s_dbs st).
 Proof. exact restart_end_to_end. Qed.
 
+(* non-vacuity of the hypotheses of C26_restart_end_to_end: a session under tbl1 with opens, a put and a
+   refused conflict, then a restart with the permuted table tbl2 (the overlapping a%d / a%s pair in the
+   other order): the producer is rebuilt, Verify succeeds, the recorded requests re-open alike *)
+Example C26_restart_example :
+  let z_t := [122; 47; 116]%N in let a1 := OldWitness.a1 in
+  Permutation OldWitness.tbl1 OldWitness.tbl2 /\ NoDup (map fst OldWitness.tbl1) /\
+  new_producer OldWitness.cok [OldWitness.main] OldWitness.tbl1 <> None /\
+  run OldWitness.orc (new_producer OldWitness.cok) [OldWitness.main] init_state
+      [ONew OldWitness.tbl1; OOpen z_t; OOpen a1; OPut z_t [1]%N [9]%N; ONew OldWitness.tbl2;
+       OVerify; OOpen z_t; OOpen a1; OGet z_t [1]%N]
+  = [BNew true;
+     BOpen (OOk (mkRoute OldWitness.main [100; 122]%N [116]%N false));
+     BOpen (OOk (mkRoute OldWitness.main [110; 49]%N [] false));
+     BOpen (OOk (mkRoute OldWitness.main [100; 122]%N [116]%N false));
+     BNew true; BVerify true;
+     BOpen (OOk (mkRoute OldWitness.main [100; 122]%N [116]%N false));
+     BOpen (OOk (mkRoute OldWitness.main [110; 49]%N [] false));
+     BGet (OOk (mkRoute OldWitness.main [100; 122]%N [116]%N false)) (Some [9]%N)].
+Proof.
+  split; [apply perm_skip; apply perm_swap|]. split; [cbn; repeat constructor; cbn; intuition discriminate|].
+  split; [vm_compute; discriminate|vm_compute; reflexivity].
+Qed.
+
 (* Verify succeeds exactly when every recorded request is still routed to the database type,
    name and table it was recorded with. *)
 Theorem C26_verify_iff : forall orc p dbs,
